@@ -19,6 +19,7 @@ import (
 // ---- C05 (temporaries): files left behind by a crash mid-save expose nothing ----------
 
 func TestC05Temporaries(t *testing.T) {
+	h.FirstShardOnly(t)
 	if _, err := os.Stat(childBin); err != nil {
 		t.Fatalf("faultchild not built: %v", err)
 	}
